@@ -178,6 +178,13 @@ pub fn for_each_response(cfg: &crate::RunCfg, label: &str, n: u64, f: &mut dyn F
                     let _ = get_length(ctx, &req);
                 }
                 rng.fill(&mut rb);
+                // one request in four is a retransmission: it is processed twice in a row and the
+                // second answer - into a buffer that no longer holds the first - is the one judged
+                if rng.chance(1, 4) {
+                    let _ = process(ctx, &req, &mut rb);
+                    rng.fill(&mut rb);
+                    rep.class("responder:retransmitted-request");
+                }
                 if let ProcOut::Ok { resp: Some(l), .. } = process(ctx, &req, &mut rb) {
                     if l <= rb.len() && l >= 10 {
                         let resp = rb[..l].to_vec();
